@@ -17,6 +17,7 @@ Reading of the statement
   (d) "never silently misread" over the other spellings is differential testing in the harness.
 -/
 import CobaVerif.Lemmas.C12
+import CobaVerif.Generated.C12Readers
 
 namespace Coba.C12
 
@@ -442,5 +443,84 @@ theorem arff_fallback_backslash_counterexample :
 (the comma attempt yields two fields, the right count) -/
 theorem arff_tab_comma_counterexample :
     (arffLineStepF 2 ALRF.init [120, TAB, SQ, 121, COMMA, SQ]).map (·.2) ≠ .ok [[120], [121, COMMA]] := by decide
+
+/-! ### translator obligations: the tables of coba/pipes/readers.py (re-extracted with `ast` on every run into
+`Generated/C12Readers.lean`) are the tables the model uses — an edit of the source breaks one of these proofs -/
+
+section Translator
+open Coba.Generated
+
+/-- `numeric_types`, `string_types` of `ArffAttrReader._encoder`; the two patterns of `ArffDataReader._sparse`; the separators of
+`LibsvmReader.filter` (`split(' ')`, `":" in items[0]`, `split(',')`, `split(":")`); `islice(lines,1,None)` of `ManikReader` -/
+theorem readers_tables_match :
+    C12Readers.numericTypes = kwNumeric ∧ C12Readers.stringTypes = kwString ∧
+    C12Readers.sparseMissingIn = [32, QM, COMMA] ∧ C12Readers.sparseMissingEnd = [32, QM, RBRACE] ∧
+    C12Readers.svmItemSep = [SP] ∧ C12Readers.svmNoLabelMark = [COLON] ∧ C12Readers.svmLabelSep = [COMMA] ∧
+    C12Readers.svmKvSep = [COLON] ∧ C12Readers.manikSkip = 1 := by decide
+
+/-- `ArffDataReader._trans = str.maketrans('','',…)`: the deleted characters -/
+theorem compact_uses_trans (t : Text) : compact t = t.filter (fun c => !C12Readers.transDeleted.contains c) := compact_eq_filter t
+theorem sparse_missing_uses_patterns (l : Text) :
+    sparseMissing l = (hasSub C12Readers.sparseMissingIn l || endsWith C12Readers.sparseMissingEnd l) := rfl
+/-- `i.rstrip('\\r\\n')` in `CsvReader.filter` -/
+theorem csv_rstrip_uses_chars (t : Text) : rstripNl t = (t.reverse.dropWhile (fun c => C12Readers.csvRstrip.contains c)).reverse :=
+  rstripNl_eq_list t
+/-- `line.strip("} {")` in `ArffLineReader._sparse` -/
+theorem sparse_strip_uses_chars (t : Text) :
+    stripBraces t = ((t.dropWhile (fun c => C12Readers.sparseStripChars.contains c)).reverse.dropWhile
+      (fun c => C12Readers.sparseStripChars.contains c)).reverse := stripBraces_eq_list t
+theorem manik_skip_uses (ls : List Text) : manikRead ls = libsvmRead (ls.drop C12Readers.manikSkip) := rfl
+theorem encoder_uses_tables (isDense : Bool) (e : Text) :
+    arffEncoder isDense e =
+      (if C12Readers.numericTypes.contains (lowerAscii e) then .ok .numeric
+       else if C12Readers.stringTypes.any (fun k => startsWith k (lowerAscii e)) then .ok .str
+       else if e.head? = some LBRACE then
+         match arffSplit .comma none e.tail.dropLast with
+         | .error er => .error er
+         | .ok cats => match catLevels (if isDense then cats else ZERO :: cats) with
+           | .error er => .error er
+           | .ok lv => .ok (.nominal lv)
+       else .error .cobaException) := rfl
+
+end Translator
+
+/-! ### plain (unquoted) dense rows: the csv fast path and the fallback parser `_dense_advanced` agree -/
+
+/-- for every row of `plainTok` values (written bare: no comma, quote character, backslash, line break; not empty; not starting
+with white space), any number of blanks after the commas: a fresh line reader (fast path), a reader that has switched to the
+fallback parser on an earlier comma-delimited line, and the fallback's `while d_line` loop itself all return exactly the written
+values.  Outside `plainTok` the two paths differ (see the counterexamples; F11, F14 above). -/
+theorem arff_fallback_agrees_plain (pad : Nat) (vs : List Text) (hne : vs ≠ []) (h : ∀ v ∈ vs, plainTok v = true) :
+    (arffLineStepF vs.length ALRF.init (plainRowLine pad vs)).map (·.2) = .ok vs ∧
+    (∀ s : ALRF, s.fallback = some COMMA → (arffAdvanced vs.length s (plainRowLine pad vs)).map (·.2) = .ok vs) ∧
+    advLoop none (splitOn COMMA (plainRowLine pad vs)) = .ok vs := plain_paths_agree' pad vs hne h
+
+example : plainTok [97, 32, 98] = true ∧ plainTok [63] = true ∧ plainTok [123, 120, 125] = true ∧ plainTok [9, 120] = false ∧
+    plainTok [120, 92] = false ∧ plainTok [] = false := by decide
+
+/-- the boundary of `plainTok`: a value starting with a tab (csv keeps the tab, the fallback `lstrip`s it), a backslash (the
+fallback drops it), an empty value (the fallback raises IndexError on `item[0]`, csv returns `''`) -/
+theorem arff_plain_boundary_counterexample :
+    ((arffLineStepF 2 ALRF.init [9, 120, 44, 121]).map (·.2) = .ok [[9, 120], [121]] ∧
+      advLoop none (splitOn COMMA [9, 120, 44, 121]) = .ok [[120], [121]]) ∧
+    advLoop none (splitOn COMMA [120, 92, 44, 121]) = .ok [[120], [121]] ∧
+    ((arffLineStepF 2 ALRF.init [44, 121]).map (·.2) = .ok [[], [121]] ∧
+      advLoop none (splitOn COMMA [44, 121]) = .error .indexError) := by decide
+
+/-! ### `int()` / `float()`: the enlarged readings are conservative -/
+
+/-- on tokens without an underscore and without the separators `\x1c`–`\x1f`, `parseIntPy` / `isFloatLitPy` (CPython's
+reading: PEP 515 underscores, `Py_ISSPACE` stripping) are the older `parseInt` / `isFloatLit` the whole-file model uses -/
+theorem numerals_conservative (tok : Text) (hu : ¬ US ∈ tok) (hf : noFs tok = true) :
+    parseIntPy tok = parseInt tok ∧ isFloatLitPy tok = isFloatLit tok := numerals_conservative' tok hu hf
+
+example : ¬ US ∈ [32, 43, 49, 50, 9] ∧ noFs [32, 43, 49, 50, 9] = true ∧ parseIntPy [32, 43, 49, 50, 9] = some 12 := by decide
+
+/-- both hypotheses are needed: `'\x0bNaN\x1c'` and `'1\x1c'` are accepted by the older functions (`str.strip()` removes
+`\x1c`) but not by CPython's `float()`/`int()`; `1_0` is read by CPython as 10, by the older functions not at all -/
+theorem numerals_fs_counterexample :
+    (isFloatLit [11, 78, 97, 78, 28] = true ∧ isFloatLitPy [11, 78, 97, 78, 28] = false) ∧
+    (parseInt [49, 28] = some 1 ∧ parseIntPy [49, 28] = none) ∧
+    (parseInt [49, 95, 48] = none ∧ parseIntPy [49, 95, 48] = some 10 ∧ parseIntPy [49, 95, 95, 48] = none) := by decide
 
 end Coba.C12
